@@ -56,6 +56,26 @@ class Obj:
         return '<%s>' % self.name
 
 
+class Cell:
+    """a `&mut` to a scalar slot of a container (element of iter_mut() / values_mut()): reads and writes go through"""
+
+    def __init__(self, base, key):
+        self.base, self.key = base, key
+
+    def get(self):
+        return self.base[self.key]
+
+    def set(self, v):
+        self.base[self.key] = v
+
+    def __repr__(self):
+        return '&mut %r' % (self.get(),)
+
+
+def _scalar(v):
+    return isinstance(v, (int, float, str, bool)) or (isinstance(v, tuple) and not isinstance(v, Obj))
+
+
 class Deque(list):
     """a VecDeque whose ring buffer is laid out as two slices: elements [0, split) and [split, len).  Code that treats the two slices
     separately (as_slices / as_mut_slices) sees exactly this layout; make_contiguous() removes it."""
@@ -159,6 +179,22 @@ class Interp:
         finally:
             self.depth -= 1
 
+    def _op_impl(self, trait, lty, rty):
+        """impl fn of an overloaded operator of the analysed crate, chosen by the operand types as written"""
+        if self.facts is None:
+            return None
+        lty, rty = (lty or '').strip(), (rty or '').strip()
+        cands = []
+        for im in self.facts.get('impls', []):
+            t = im.get('trait') or ''
+            if not t.startswith('std::ops::' + trait):
+                continue
+            arg = t[len('std::ops::' + trait):]
+            arg = arg[1:-1] if arg.startswith('<') else im['self'].replace('&', '').strip()
+            if im['self'].replace('mut ', '').strip() == lty.replace('mut ', '') and arg.replace('mut ', '').strip() == rty.replace('mut ', ''):
+                cands.append(im['methods'][0][1])
+        return cands[0] if len(cands) == 1 and self._inlinable(cands[0]) else None
+
     def _inlinable(self, c):
         return self.facts is not None and c in self.facts['fns'] and (self.inline is None or self.inline(c))
 
@@ -222,8 +258,13 @@ class Interp:
     def ev(self, e, env):
         self.tick()
         e0 = e
+        deref_ = False
         while e is not None and (e.get('k') == 'AddrOf' or (e.get('k') == 'Unary' and e['op'] == 'Deref') or (e.get('k') == 'Block' and not e['stmts'] and e['expr'] is not None)):
+            deref_ = deref_ or e.get('k') == 'Unary'
             e = e['e'] if e.get('k') != 'Block' else e['expr']
+        if deref_ or e0 is not e:
+            v_ = self.ev(e, env)
+            return v_.get() if (deref_ and isinstance(v_, Cell)) else v_
         k = e.get('k')
         if k == 'Block' and e['stmts'] and e['stmts'][0].get('k') == 'Let':
             ft = self._format_args(e, env)
@@ -287,6 +328,13 @@ class Interp:
             if op == 'Or':
                 return bool(self.ev(e['l'], env)) or bool(self.ev(e['r'], env))
             a, b = self.ev(e['l'], env), self.ev(e['r'], env)
+            a = a.get() if isinstance(a, Cell) else a
+            b = b.get() if isinstance(b, Cell) else b
+            if isinstance(a, dict) and '__struct__' in a and op in ('Add', 'Sub', 'Mul'):
+                k_ = self._op_impl(op, e['l'].get('ty'), e['r'].get('ty'))
+                if k_ is None:
+                    raise NoEval('operator %s on %s' % (op, a['__struct__']))
+                return self.local_call(k_, [a, b])
             try:
                 if op == 'Sub' and isinstance(a, int) and isinstance(b, int) and a < b and 'usize' in (e.get('ty') or ''):
                     raise NoEval('usize underflow')
@@ -408,6 +456,23 @@ class Interp:
             a2 = hir.ctor_call(e, nm_)
             if a2 is not None:
                 return (nm_, self.ev(a2[0], env))
+        if c.rsplit('::', 1)[-1] in ('from', 'into', 'try_from') and len(e['args']) == 1 and (e.get('ty') or '') in ('u8', 'u16', 'u32', 'u64', 'u128', 'usize', 'i8', 'i16', 'i32', 'i64', 'i128', 'isize'):
+            v_ = self.ev(e['args'][0], env)
+            v_ = v_.get() if isinstance(v_, Cell) else v_
+            if isinstance(v_, (bool, int)):
+                return int(v_)
+        if c.endswith('mem::swap') and len(e['args']) == 2:
+            a_, b_ = self.ev(e['args'][0], env), self.ev(e['args'][1], env)
+            a_ = a_.get() if isinstance(a_, Cell) else a_
+            b_ = b_.get() if isinstance(b_, Cell) else b_
+            self.place_set(e['args'][0], b_, env)
+            self.place_set(e['args'][1], a_, env)
+            return None
+        if c.endswith('mem::replace') and len(e['args']) == 2:
+            a_ = self.ev(e['args'][0], env)
+            a_ = a_.get() if isinstance(a_, Cell) else a_
+            self.place_set(e['args'][0], self.ev(e['args'][1], env), env)
+            return a_
         if c.endswith(('fmt::format', 'hint::must_use')) and len(e['args']) == 1:
             v_ = self.ev(e['args'][0], env)
             if isinstance(v_, str):
@@ -470,6 +535,8 @@ class Interp:
     def method(self, e, env):
         nm = e['name']
         recv = self.ev(e['recv'], env)
+        if isinstance(recv, Cell):
+            recv = recv.get()
         args = e['args']
 
         def A(i=0):
@@ -485,10 +552,14 @@ class Interp:
                 raise Proceed('%s.%s' % (recv.name, nm))
             raise NoEval('method %s on %s' % (nm, recv.name))
         if nm in ('clone', 'to_owned', 'copied', 'cloned', 'iter', 'into_iter', 'iter_mut', 'by_ref', 'as_slice', 'to_vec', 'as_ref', 'as_mut', 'borrow', 'peekable', 'into', 'as_deref') and not args:
-            if nm in ('clone', 'to_owned', 'to_vec') and isinstance(recv, (list, dict)):
+            if nm in ('clone', 'to_owned', 'to_vec', 'cloned', 'copied') and isinstance(recv, (list, dict)):
                 return deep_clone(recv)
+            if isinstance(recv, dict) and nm == 'iter_mut' and '__struct__' not in recv:
+                return [(k_, Cell(recv, k_) if _scalar(v_) else v_) for k_, v_ in list(recv.items())]
             if isinstance(recv, dict) and nm in ('iter', 'into_iter', 'iter_mut'):
                 return [(k_, v_) for k_, v_ in recv.items()]
+            if isinstance(recv, list) and nm == 'iter_mut' and recv and all(_scalar(x) for x in recv):
+                return [Cell(recv, i_) for i_ in range(len(recv))]
             return recv
         if _is_opt(recv):
             if nm in ('unwrap', 'expect'):
@@ -672,6 +743,12 @@ class Interp:
                     if not (isinstance(i, int) and 0 <= i < len(recv)):
                         raise NoEval('remove out of range')
                     return recv.pop(i)
+                if nm == 'swap_remove':
+                    i = A()
+                    if not (isinstance(i, int) and 0 <= i < len(recv)):
+                        raise Panics('swap_remove out of range')
+                    recv[i], recv[-1] = recv[-1], recv[i]
+                    return recv.pop()
                 if nm == 'insert':
                     recv.insert(A(0), A(1))
                     return None
@@ -733,8 +810,15 @@ class Interp:
     # ------------------------------------------------------------ statements
     def place_set(self, l, v, env, op=None):
         l0 = l
+        deref_ = False
         while l.get('k') == 'AddrOf' or (l.get('k') == 'Unary' and l['op'] == 'Deref'):
+            deref_ = deref_ or l.get('k') == 'Unary'
             l = l['e']
+        v = v.get() if isinstance(v, Cell) else v
+        if deref_ and l.get('k') == 'Path' and l['res'].get('k') == 'Local' and isinstance(env.get(l['res']['id']), Cell):
+            c_ = env[l['res']['id']]
+            c_.set(v if op is None else op(c_.get(), v))
+            return
         if l.get('k') == 'Path' and l['res'].get('k') == 'Local':
             i = l['res']['id']
             env[i] = v if op is None else op(env[i], v)
@@ -776,6 +860,15 @@ class Interp:
             self.place_set(s['l'], self.ev(s['r'], env), env)
             return None
         if k == 'AssignOp':
+            lt_ = (s['l'].get('ty') or '').strip()
+            if self.facts is not None and lt_ in self.facts.get('adts', {}):
+                lv_ = self.ev(s['l'], env)
+                if isinstance(lv_, dict) and '__struct__' in lv_:
+                    k_ = self._op_impl(s['op'], lt_, s['r'].get('ty'))
+                    if k_ is None:
+                        raise NoEval('operator %s on %s' % (s['op'], lt_))
+                    self.local_call(k_, [lv_, self.ev(s['r'], env)])
+                    return None
             f = {'AddAssign': lambda a, b: a + b, 'SubAssign': lambda a, b: a - b, 'MulAssign': lambda a, b: a * b}.get(s['op'])
             if not f:
                 raise NoEval(s['op'])
